@@ -216,7 +216,7 @@ func (p *printer) simpleValue(v Value) (string, bool) {
 		t, _ := SpellQuoted(v.S, v.Sp)
 		return t, true
 	case VInt:
-		return spellInt(v.I, v.Sp == SpNumStr), true
+		return spellIntForm(v.I, v.Num, v.Sp == SpNumStr), true
 	case VBool:
 		if v.B {
 			return "true", true
@@ -280,7 +280,7 @@ func (p *printer) value(v Value, depth int) (heredocEnd bool) {
 	case VStr:
 		return p.str(v, depth)
 	case VInt:
-		p.b.WriteString(spellInt(v.I, v.Sp == SpNumStr))
+		p.b.WriteString(spellIntForm(v.I, v.Num, v.Sp == SpNumStr))
 	case VBool:
 		if v.B {
 			p.b.WriteString("true")
